@@ -75,6 +75,27 @@ CLAIMED = {
         note=BASE_NOTE + 'the pointwise (zipped) selection is modelled and compared but has no element-wise theorem yet; keyword order independence is exercised, not proved.',
         technique='Lean 4 proof (structural induction over nested arrays; omega for slice normalisation) + model/implementation correspondence',
         design='§7 C02'),
+    'C03': dict(
+        text=('Lean theorem, for arrays of any rank/shape, any axis and any 1-D function whose output length depends only on '
+              'the input length: the element at every multi-index of the model of applyAlongDimensions is the corresponding '
+              'element of the function applied to the 1-D fiber through that index (axis retained); all modelled functions '
+              '(mean/sum/min/max/var, diff, sub-sampling, cumsum, reverse, convolution) are uniform; reducers exclude masked '
+              'cells and give a masked result for an all-masked fiber; variables lacking the named dimensions are unchanged. '
+              'Whole-file correspondence (data, masks, dimension and coordinate-variable lengths, integer casting) with '
+              'applyAlongDimensions on every run plus a numpy/numpy.ma oracle.'),
+        note=BASE_NOTE + 'commutation of reducers over different axes is exercised (random keyword order, numpy oracle), not proved; std and float32 go through the oracle only; float64 results compared within 1e-12.',
+        technique='Lean 4 proof (induction over shape with a cell-wise transposition lemma) + model/implementation correspondence',
+        design='§7 C03'),
+    'C04': dict(
+        text=('Lean theorems for arrays of any rank: cutting along axis k at any point and concatenating gives the array back; '
+              'by induction the same for ANY partition into consecutive pieces; taking/dropping the first piece length from a '
+              'concatenation returns the pieces; the stacked axis length is the sum. Correspondence of the stack model (shared '
+              'dimensions, variables without the stack dimension from the first file, argument order, errors) with '
+              'PseudoNetCDFFile.stack on split files and on independent files on every run; oracle: stack(split(f)) == f and '
+              'slice(stack) == piece on the real code.'),
+        note=BASE_NOTE + 'open_mfdataset / pncmfopen / stack_files front-ends are not exercised yet.',
+        technique='Lean 4 proof (mutual structural induction on nested arrays, induction over the cut list) + model/implementation correspondence',
+        design='§7 C04'),
 }
 
 NOT_YET = {}
